@@ -33,7 +33,9 @@ def eval_case(case):
         for (k, ph, w, sn) in rec["snaps"]:
             if ph == "updated":
                 out += O.c12_snapshot(S, sn, k, "step %d" % k)
-    return {"violations": out, "sig": simcheck.behaviour_sig(S, trace), "hist": simcheck.base_hist(S, trace),
+    from .. import modelrun
+    return {"violations": out, "disagreements": modelrun.compare(case, trace, modelrun.CONES["C12"]),
+            "sig": simcheck.behaviour_sig(S, trace), "hist": simcheck.base_hist(S, trace),
             "nontrivial": (trace[0].get("dump") or {}).get("time", 0) >= 2 and len(case["edges"]) >= 1,
             "summary": {"time": (trace[0].get("dump") or {}).get("time")}}
 
